@@ -36,8 +36,9 @@ def find_parse_args(ctx: Ctx) -> FuncInfo:
     for f in repo.functions.values():
         if f.module.name != "flowmark.cli" or isinstance(f.node, ast.Lambda):
             continue
-        if builds_options(f):
-            repo.func(f.qual)  # registers the function as an anchor: the inlined view keeps it a function of its own
+        if f.name == "_parse_args" or (builds_options(f) and "flowmark.cli:_parse_args" not in repo.functions):
+            # anchor: the inlined view keeps it a function of its own (its helpers are spliced into it, it is not spliced into main)
+            repo.func(f.qual)
         if parsers_in(repo, f):
             cands.append(f)
     if not cands:
